@@ -45,6 +45,13 @@ class C02(Prop):
         names = lang.variables(f) or [c.vars[0]]
         case = {'formula': f, 'data': lang.gen_trace(rng, names, n),
                 'online_kind': rng.choice(['dt', 'dt', 'dt_on'])}
+        if rng.random() < 0.12:
+            # an interface-aware semantics with a random io assignment on both monitors; small-integer data, so that
+            # values sit on the thresholds of strict and non-strict comparisons
+            from rtverif.props.c06 import SEMS
+            case['ia'] = [rng.choice(SEMS[1:]), dict((k, rng.choice(['input', 'output'])) for k in names)]
+            case['online_kind'] = 'dt'
+            case['data'] = dict((k, [rng.choice([0.0, 1.0, 2.0, 3.0, -1.0, 0.5, 1.5]) for _ in range(n)]) for k in names)
         if rng.random() < 0.03:
             # a wide window (13..200 samples) on a trace longer than it: samples slide out of the window, spikes sit on
             # the sample that has just expired, equal extrema occur several times
@@ -61,14 +68,8 @@ class C02(Prop):
             for i in rng.sample(range(n), 3):
                 xs[i] = rng.choice([100.0, -100.0])
             xs[0] = rng.choice([100.0, -100.0, xs[0]])
+            case.pop('ia', None)
             case.update({'formula': f, 'data': {'x': xs}, 'wide_long': True})
-        if rng.random() < 0.12:
-            # an interface-aware semantics with a random io assignment on both monitors; small-integer data, so that
-            # values sit on the thresholds of strict and non-strict comparisons
-            from rtverif.props.c06 import SEMS
-            case['ia'] = [rng.choice(SEMS[1:]), dict((k, rng.choice(['input', 'output'])) for k in names)]
-            case['online_kind'] = 'dt'
-            case['data'] = dict((k, [rng.choice([0.0, 1.0, 2.0, 3.0, -1.0, 0.5, 1.5]) for _ in range(n)]) for k in names)
         return case
 
     def classify(self, case, mech, detail):
